@@ -188,7 +188,22 @@ def run_property(prop, tier="quick", seed=0, unit_filter=None, nproc=None, extra
                 if not any(fnmatch.fnmatch(o["name"], k["key"]) for k in known):
                     ob, res = o, r
                     break
-        path = write_replay(prop, ob, res, extra=dict(instances=[o["name"] for o, _ in items][:40]))
+        extra = dict(instances=[o["name"] for o, _ in items][:40])
+        unit_obj = registry.get(res["unit"])
+        redirect = getattr(unit_obj, "replay_redirect", None)
+        if redirect is not None:
+            try:
+                red = redirect(res["case"], tier)
+            except Exception as ex:  # the search is best effort
+                red = None
+                extra["replay_search_error"] = repr(ex)
+            if red is not None:
+                ob = dict(ob, inputs=red[2])
+                res = dict(res, unit=red[0], case=red[1])
+                extra["replay_note"] = "the failed obligation is about an abstract state; the input was found by a bounded search of unit %s" % red[0]
+            else:
+                ob = dict(ob, inputs=None)
+        path = write_replay(prop, ob, res, extra=extra)
         if ob.get("inputs") is None:
             status, out = 1, "no model could be extracted"
             suffix = " no-failing-input-found"
